@@ -119,7 +119,7 @@ def run(ctx):
         ex_calls = [i for i in iba.calls(r"std::path::Path::exists") if any(iba.path([i], [x]) for x in destructive)]
         guarded = bool(locks_held) and all(any(iba.dominates(l, x) for l in locks_held) for x in destructive + ex_calls + cond_calls)
         # also accept: the existence test result flows from a point dominated by a lock
-        ok = guarded or not cond
+        ok = guarded or not (cond or ex_calls)
         ctx.ob("R16.4", "init|db-creation-under-lock", ok, where=ctx.where(init, destructive[0]),
                detail="unlink/create of the database happens while holding a lock" if ok else
                "`!dbfile.exists()` is tested without a lock and then the database file is unlinked and its schema created: of two first invocations one can unlink the other's fresh database or open a schema-less file")
